@@ -913,7 +913,7 @@ func c08Exec(t *testing.T, r *kit.Run) func(wProg) kit.Outcome {
 			o.Classes = append(o.Classes, f)
 		}
 		sort.Strings(o.Classes)
-		if fail != "" {
+		if fail != "" && res.Viol == nil {
 			o.Skip = true
 			fmt.Println("C08 bubble failure (not judged here):", firstLine(fail))
 			return o
